@@ -964,7 +964,8 @@ func (s *Server) backgroundSyncAOF(wg *sync.WaitGroup) {
 }
 
 func isReservedFieldName(field string) bool {
-	switch field {
+	// field.Make trims the name: check what is going to be stored
+	switch strings.TrimSpace(field) {
 	case "z", "lat", "lon":
 		return true
 	}
